@@ -200,6 +200,10 @@ def gen(rng, k, dll=None):
             inject.append(dict(t=t1 + 60000 * (q + 1), to=0, id=did, data=[q + 1] + (second[7 * q:7 * q + 7] + [255] * 7)[:7], via='listener'))
         expect_cb.append((0xFE55, second))
         t_stream_end = max(t_stream_end, t1 + 60000 * (n2 + 1))
+    # directed family: a diagnostic service (cyclic DM1) runs on the local CA when a contender with a lower NAME takes its address
+    if rng.random() < 0.12:
+        script.append(dict(t=1500, s=0, op='dm1_start', ca=0, cycle=rng.choice([50000, 100000])))
+        inject.append(dict(t=rng.randint(3000, max(4000, t_stream_end)), to=0, id=R.ref_can_id(6, 0xEEFF, LOCAL_CA), data=[5, 0, 0, 0, 0, 0, 0, 0], via='listener'))
     # the stack may itself be sending while the stream arrives
     for _ in range(rng.choice([0, 0, 1, 2])):
         ts = rng.randint(1000, max(2000, t_stream_end))
@@ -235,7 +239,7 @@ def gen(rng, k, dll=None):
         sc['expect_cb'] = expect_cb
     if on_tx:
         sc['on_tx'] = on_tx
-    if storm:
+    if storm or any(e['op'] == 'dm1_start' for e in script):
         sc['oracle_only'] = True          # frames handled while the job thread is inside a callback: outside the atomic-handler model
     sc['inject'].sort(key=lambda e: e['t'])
     return sc
